@@ -672,7 +672,6 @@ package validate
 //@ func (*formatValidator).Validate
 //@   effects validation
 //@   maypanic
-//@   requires[C06] typeis(val, "string")
 //@   ensures[C04,C11] redeemed(f) == old(f.Options.recycleValidators)
 //@   ensures[C04,C06] result != nil && okResult(result)
 //@   on_panic ensures[C11] redeemed(f) == old(f.Options.recycleValidators)
@@ -820,7 +819,6 @@ package validate
 //@   effects validation
 //@   maypanic
 //@   requires[C06] implies(typeis(recv, "*typeValidator"), jsonOrNum(data))
-//@   requires[C06] implies(typeis(recv, "*formatValidator"), typeis(data, "string"))
 //@   requires[C06] implies(typeis(recv, "*numberValidator"), knumeric(data))
 //@   requires[C06] implies(typeis(recv, "*schemaSliceValidator"), isJSON(data) && (data == nil || kind(data) == 23))
 //@   requires[C06] implies(typeis(recv, "*objectValidator"), isJSON(data))
